@@ -33,18 +33,21 @@ def visible (b : UInt8) : Bool := b = 9 || (32 ≤ b.toNat && b.toNat ≤ 126)
 def dropEndQuote (s : Bytes) : Option Bytes :=
   if s.getLast? = some 34 then some s.dropLast else none
 
-/-- `parse_etag`: strip `W/"…"` or `"…"`, otherwise leave unchanged. -/
+/-- `s = p ++ rest`: drop the prefix `p`. -/
+def dropPrefix : Bytes → Bytes → Option Bytes
+  | [], s => some s
+  | _ :: _, [] => none
+  | x :: p, y :: s => if x = y then dropPrefix p s else none
+
+/-- `parse_etag`: the slice patterns `[b'W', b'/', b'"', inner @ .., b'"']`, then
+`[b'"', inner @ .., b'"']`, otherwise the input unchanged. -/
 def stripEtag (e : Bytes) : Bytes :=
-  match e with
-  | 87 :: 47 :: 34 :: rest =>
-    match dropEndQuote rest with
+  match (dropPrefix [87, 47, 34] e).bind dropEndQuote with
+  | some inner => inner
+  | none =>
+    match (dropPrefix [34] e).bind dropEndQuote with
     | some inner => inner
     | none => e
-  | 34 :: rest =>
-    match dropEndQuote rest with
-    | some inner => inner
-    | none => e
-  | _ => e
 
 /-- `str::split_once(d)`: split at the first occurrence of `d`. -/
 def splitOnce (d : UInt8) : Bytes → Option (Bytes × Bytes)
